@@ -2,6 +2,7 @@
 mod dom;
 mod dump;
 mod jt;
+mod lc;
 mod lg;
 mod lz;
 mod st;
@@ -20,6 +21,8 @@ fn main() {
         "lg-record" => lg::record(&args),
         "st-record" => st::record(&args),
         "lz-record" => lz::record(&args),
+        "lc-replay" => lc::replay(&args),
+        "lc-probe" => lc::probe(&args),
         "dom-replay" => dom::replay(&args),
         "nest" => nest(&args),
         _ => { eprintln!("unknown command {cmd}"); 2 }
